@@ -1,5 +1,6 @@
 (* C38 - model of orm/collections.py::_list_decorators (InstrumentedList) as the code is NOW
-   (slice assignment through slice.indices(), commit 1d9f897), and the builtin list it must equal.
+   (slice assignment through slice.indices(), commit 1d9f897; value materialised first, 2c3a941;
+   remove() fires its event only for a present value, b1144f3), and the builtin list it must equal.
 
    Each wrapper is transcribed statement by statement; the wrapped builtin [fn] is the reference
    semantics of base/PySlice.v.  Calls such as `del self[start]`, `self.insert(..)`,
@@ -105,9 +106,11 @@ Definition b_upd (f : list item -> res (list item)) : LM unit :=
 Definition sa_append (x : item) : LM unit :=
   fire (EAdd x) ;;; b_upd (fun l => Ok (l ++ [x])).
 
-(* def remove(self, value): __del(self, value, ..); fn(self, value) *)
+(* def remove(self, value): if value in self: __del(self, value, ..);  fn(self, value) *)
 Definition sa_remove (x : item) : LM unit :=
-  fire (ERem x) ;;; b_upd (fun l => py_remove l x).
+  l <- get ;;
+  (if mem x l then fire (ERem x) else ret tt) ;;;
+  b_upd (fun l => py_remove l x).
 
 (* def insert(self, index, value): value = __set(self, value, None, index); fn(self, index, value) *)
 Definition sa_insert (i : Z) (x : item) : LM unit :=
@@ -158,25 +161,15 @@ Fixpoint set_loop (ivs : list (Z * item)) : LM unit :=
   | (i, x) :: r => sa_setitem i x ;;; set_loop r
   end.
 
-(* the same loop when value IS self: the k-th item is read from the live collection *)
-Fixpoint set_loop_live (rng : list Z) (k : nat) : LM unit :=
-  match rng with
-  | [] => ret tt
-  | i :: r =>
-      l <- get ;;
-      match nth_error l k with
-      | None => ret tt                      (* zip() stops: value exhausted *)
-      | Some x => sa_setitem i x ;;; set_loop_live r (S k)
-      end
-  end.
-
 (* __setitem__, slice:
      start, stop, step = index.indices(len(self))
      if step == 1:
          if value is self: return
+         value = list(value)
          for i in range(start, stop, step): if len(self) > start: del self[start]
          for i, item in enumerate(value): self.insert(i + start, item)
      else:
+         value = list(value)
          rng = list(range(start, stop, step))
          if len(value) != len(rng): raise ValueError(..)
          for i, item in zip(rng, value): self.__setitem__(i, item) *)
@@ -187,19 +180,18 @@ Definition sa_setslice (sl : pyslice) (v : value) : LM unit :=
   if step =? 1 then
     match v with
     | VSelf => ret tt
-    | VList w | VIter w =>
-        del_loop (length (range start stop step)) start ;;; ins_loop start w
-    | VNonIter =>
-        del_loop (length (range start stop step)) start ;;; raise TypeError   (* enumerate(value) *)
+    | _ =>
+      match materialise l v with
+      | None => raise TypeError                                   (* list(value) *)
+      | Some w => del_loop (length (range start stop step)) start ;;; ins_loop start w
+      end
     end
   else
-    let rng := range start stop step in
-    match v with
-    | VIter _ | VNonIter => raise TypeError                                   (* len(value) *)
-    | VList w =>
+    match materialise l v with
+    | None => raise TypeError                                     (* list(value) *)
+    | Some w =>
+        let rng := range start stop step in
         if Nat.eqb (length w) (length rng) then set_loop (combine rng w) else raise ValueError
-    | VSelf =>
-        if Nat.eqb (length l) (length rng) then set_loop_live rng 0 else raise ValueError
     end.
 
 (* extend / __iadd__: for value in list(iterable): self.append(value) *)
@@ -263,34 +255,23 @@ Fixpoint py_list_run (ops : list lop) (l : list item) : list (res retv) * list i
   end.
 
 (* ---------- where the instrumented list is known NOT to equal the builtin ---------- *)
-(* contents/result/exception: excluded are
-   - c[a:b] = c      unless the slice is the whole list (`if value is self: return`)
-   - c[a:b:k] = c    with k <> 1, matching size and >= 2 items (zip reads the list being modified)
-   - c[a:b] = <non-iterable>   when the slice is not empty (deleted before enumerate() fails)
-   - c[a:b:k] = <iterator>     (len(value) raises TypeError)                                  *)
+(* contents/result/exception: the only exclusion left is  c[a:b] = c  (step 1) unless the slice is
+   the whole list (`if value is self: return`, a documented decision of the test-suite) *)
 Definition list_eq_guard (l : list item) (op : lop) : bool :=
   match op with
-  | LSetSlice sl v =>
+  | LSetSlice sl VSelf =>
       match adjust sl (zlen l) with
       | Raise _ => true
       | Ok (start, stop, step) =>
-        let n := length (range start stop step) in
-        match v with
-        | VList _ => true
-        | VSelf => if step =? 1 then (start =? 0) && (Z.max start stop =? zlen l)
-                   else negb (Nat.eqb (length l) n) || Nat.leb (length l) 1
-        | VNonIter => if step =? 1 then Nat.eqb n 0 else true
-        | VIter _ => step =? 1
-        end
+          if step =? 1 then (start =? 0) && (Z.max start stop =? zlen l) else true
       end
   | _ => true
   end.
 
-(* event accounting: excluded are remove(x) of an absent x (event fired before ValueError) and
-   *= n that changes the contents (n <> 1 on a non-empty list) *)
+(* event accounting: the only exclusion left is  *= n  that changes the contents (n <> 1 on a
+   non-empty list): __imul__ is deliberately not wrapped *)
 Definition list_acct_guard (l : list item) (op : lop) : bool :=
   match op with
-  | LRemove x => mem x l
   | LIMul n => (n =? 1) || Nat.eqb (length l) 0
   | _ => true
   end.
